@@ -90,6 +90,16 @@ macro_rules! share_runner {
                 subs.push(Some($boxsub::new(u)));
                 next_id += 1;
               }
+              // the published observable itself is subscribed (which consumes it: no connect() afterwards)
+              "subself" => {
+                let p = SProbe { id: next_id, log: log.clone() };
+                let u = match conn.take() {
+                  Some(c) => c.actual_subscribe(p),
+                  None => forked.clone().actual_subscribe(p),
+                };
+                subs.push(Some($boxsub::new(u)));
+                next_id += 1;
+              }
               "connect" => {
                 if let Some(c) = conn.take() {
                   let u = c.connect();
